@@ -35,6 +35,8 @@ def main() -> int:
             return mod.replay(json.loads(Path(args.replay).read_text()))
         run = common.Run(args.prop, args.tier, seed)
         if args.skip_lean:
+            # development runs write their evidence next to, not over, the registered evidence files
+            common.EVIDENCE = common.VERIF / "evidence" / "dev"
             lean = {"ok": True, "failures": [], "obligations": [], "discharged": [], "axioms": {}, "checker_cmd": "skipped", "driver_ok": True}
         else:
             lean = common.lean_stage(args.prop, args.tier)
